@@ -231,39 +231,35 @@ def rule_role(ctx, R):
     for nm, attr, plan in (("calcTLS1_3KeyUpdate_sender", "_readState", {"T": "sr", "F": "cl"}),
                            ("calcTLS1_3KeyUpdate_reciever", "_writeState", {"T": "cl", "F": "sr"})):
         f = ctx.index.func(RECLAYER + nm)
-        a, b = _arms(f.node)
-        if a is None:
-            raise AnalysisError("%s: `if self.client` not found in %s" % (R, nm))
-        for lbl, body in (("T", a), ("F", b)):
+        from .common import role_effects
+        for lbl, flag in (("T", True), ("F", False)):
             side = plan[lbl]
-            role = "client" if lbl == "T" else "server"
-            calls = [s for s in body if isinstance(s, ast.Assign) and isinstance(s.value, ast.Call)
-                     and call_name(s.value) == "_calcTLS1_3KeyUpdate"]
-            ok = len(calls) == 1
+            role = "client" if flag else "server"
+            eff = role_effects(ctx, f, {"self.client": flag})
+            calls = [c for c in eff["calls"] if c[0] == "_calcTLS1_3KeyUpdate"]
+            ok = len(calls) == 1 and len(calls[0][1]) >= 2 and str(calls[0][1][1]) == side + "_app_secret"
             newsec = state = None
             if ok:
-                c = calls[0]
-                ok = norm(c.value.args[1]) == side + "_app_secret" and isinstance(c.targets[0], ast.Tuple)
+                tg = calls[0][2]
+                ok = len(tg) == 1 and tg[0].startswith("(") and "," in tg[0]
                 if ok:
-                    newsec, state = norm(c.targets[0].elts[0]), norm(c.targets[0].elts[1])
+                    newsec, state = [x.strip() for x in tg[0].strip("()").split(",")][:2]
             ctx.check(R, ok, f.qname, "%s as %s derives from the %s secret" % (nm, role, side),
-                      "%s on the %s must derive the next generation from %s_app_secret" % (nm, role, side),
-                      f.loc(calls[0]) if calls else f.loc())
-            asg = [s for s in body if isinstance(s, ast.Assign) and attr_chain(s.targets[0]) in
-                   ("self._readState", "self._writeState")]
-            ok2 = len(asg) == 1 and attr_chain(asg[0].targets[0]) == "self." + attr and norm(asg[0].value) == state
+                      "%s on the %s must derive the next generation from %s_app_secret" % (nm, role, side), f.loc())
+            inst = {k: str(v) for k, v in eff["assign"].items() if k in ("self._readState", "self._writeState")}
+            ok2 = inst == {"self." + attr: state}
             ctx.check(R, ok2, f.qname, "%s as %s installs the new state as %s" % (nm, role, attr),
                       "%s on the %s must install the new keys as self.%s only" % (nm, role, attr), f.loc())
-            ret = [s for s in body if isinstance(s, ast.Return)]
             ok3 = False
-            if len(ret) == 1 and isinstance(ret[0].value, ast.Tuple) and len(ret[0].value.elts) == 2:
-                e0, e1 = norm(ret[0].value.elts[0]), norm(ret[0].value.elts[1])
+            rets = eff["returns"]
+            if len(rets) == 1 and isinstance(rets[0], tuple) and len(rets[0]) == 2:
+                e0, e1 = str(rets[0][0]), str(rets[0][1])
                 ok3 = (side == "cl" and e0 == newsec and e1 == "sr_app_secret") or \
                       (side == "sr" and e0 == "cl_app_secret" and e1 == newsec)
             ctx.check(R, ok3, f.qname, "%s as %s returns (client secret, server secret) with the updated one replaced" % (nm, role),
                       "%s on the %s must return the NEW %s secret in its position and the other secret "
                       "unchanged; a stale secret makes the next key update derive the same keys again"
-                      % (nm, role, side), f.loc(ret[0]) if ret else f.loc())
+                      % (nm, role, side), f.loc())
     ku = ctx.index.func(RECLAYER + "_calcTLS1_3KeyUpdate")
     src = " ".join(norm(s) for s in ku.node.body)
     ok = "HKDF_expand_label(app_secret, b'traffic upd', b'', prf_length, prf_name)" in src and \
@@ -290,15 +286,13 @@ def _check_states(ctx, R, fi, client_src, server_src):
               "each pending state is built from one side's key material only",
               "the pending states mix client and server key material: %s" % {k: sorted(v) for k, v in side.items()},
               fi.loc())
-    a, b = _arms(fi.node)
-    if a is None:
-        raise AnalysisError("%s: `if self.client` not found in %s" % (R, fi.qname))
-    for role, body, wr, rd in (("client", a, "client", "server"), ("server", b, "server", "client")):
+    from .common import role_effects
+    for role, flag, wr, rd in (("client", True, "client", "server"), ("server", False, "server", "client")):
+        eff = role_effects(ctx, fi, {"self.client": flag})
         got = {}
-        for s in body:
-            if isinstance(s, ast.Assign) and attr_chain(s.targets[0]) in ("self._pendingWriteState", "self._pendingReadState"):
-                st = norm(s.value)
-                got[attr_chain(s.targets[0])] = next(iter(side.get(st, {"?"})))
+        for tgt in ("self._pendingWriteState", "self._pendingReadState"):
+            v = eff["assign"].get(tgt)
+            got[tgt] = next(iter(side.get(str(v), {"?"}))) if v is not None else None
         ok = got.get("self._pendingWriteState") == wr and got.get("self._pendingReadState") == rd
         ctx.check(R, ok, fi.qname, "%s: %s writes with %s keys and reads with %s keys" % (fi.short, role, wr, rd),
                   "as %s the endpoint installs %s; it must write with the %s keys and read with the %s keys "
